@@ -372,6 +372,17 @@ func (w *World) buildOp(op *Op) *BuiltOp {
 		}
 		b.IsFeeOp = true
 		id, reg := w.regRef(m, op.Ref)
+		if op.Ref >= 0 && op.N%2 == 0 {
+			// half of the purchases go where the limit is in an unusual relation to the maximum in force:
+			// a registration whose limit is above a maximum that governance has lowered since
+			for _, r := range m.Regs {
+				if r.Limit.Cmp(new(big.Int).SetUint64(m.P.MaxLimit)) > 0 {
+					id, reg = r.ID, r
+					w.Class("op.purchase-aimed-at-limit-above-max")
+					break
+				}
+			}
+		}
 		if g := w.ghostFor(b.Module, op); g != nil {
 			// retry by the same party of an operation whose earlier attempt (against an identifier that did
 			// not exist then) was rolled back or only went through CheckTx
